@@ -900,3 +900,53 @@ def gen_shape_program(rng, name, kf_shapes=False):
     P.funcs.append((en, "i64, p:buf, i64:a0, i64:a1, i64:a2, i64:a3, d:x0, d:x1",
                     [f"i64:{x}" for x in locs] + (["d:dz", "d:dn", "d:dm"] if fp else []), ins))
     return P, [en]
+
+
+# ------------------------------------------------------------------ stack growth: dynamic allocas released per call
+def gen_stack_program(rng, name, iters=20000):
+    """entry `name_e0`: a loop of `iters` iterations around a call site (call / inline) of a callee with
+    a run-time sized (about 4 KiB) or late alloca — alone, next to a constant top alloca, behind a label,
+    or one level down a call chain.  As written every activation releases its allocas on return, so the
+    stack stays flat; an inlined copy that is not bracketed by bstart/bend needs iters x 4 KiB = 80 MB."""
+    r = rng
+    P = Prog(name)
+    P.protos.add("p2: proto i64, i64:a, i64:b")
+    v = r.below(5)
+    callee = f"{name}_v"
+    ins = [("mov", "r", "a")]
+    locs = ["r", "n", "p", "c", "q", "t"]
+    if v in (0, 3, 4):      # constant top alloca next to the dynamic one
+        ins += [("alloca", "c", r.choice([16, 24, 100])), ("mov", ("mem", "i64", 0, "c", None, 1), "b")]
+    size = [("and", "n", "a", 56), ("add", "n", "n", 4040)]
+    if v in (0, 1):
+        ins += size + [("alloca", "p", "n")]
+    elif v == 2:
+        ins += size + [("jmp", callee + "_L"), ("label", callee + "_L"), ("alloca", "p", "n")]
+    elif v == 3:            # constant size but behind a label: not a top alloca either
+        ins += [("label", callee + "_L"), ("alloca", "p", 4096)]
+    else:                   # the dynamic alloca is one level down
+        leaf = f"{name}_leaf"
+        P.funcs.append((leaf, "i64, i64:a, i64:b", ["i64:n", "i64:p", "i64:r"],
+                        size + [("alloca", "p", "n"), ("mov", ("mem", "i64", 4032, "p", None, 1), "b"),
+                                ("add", "r", "a", ("mem", "i64", 4032, "p", None, 1)), ("ret", "r")]))
+        ins += [(r.choice(["call", "inline"]), "p2", leaf, "t", "a", "b"), ("add", "r", "r", "t")]
+    if v != 4:
+        ins += [("mov", ("mem", "i64", 0, "p", None, 1), "a"), ("mov", ("mem", "i64", 4032, "p", None, 1), "b"),
+                ("add", "r", "r", ("mem", "i64", 4032, "p", None, 1)), ("xor", "r", "r", ("mem", "i64", 0, "p", None, 1))]
+    if v in (0, 3, 4):
+        ins += [("add", "r", "r", ("mem", "i64", 0, "c", None, 1))]
+    ins += [("ret", "r")]
+    P.funcs.append((callee, "i64, i64:a, i64:b", [f"i64:{x}" for x in locs], ins))
+    en = f"{name}_e0"
+    lp = en + "_L"
+    kind = r.choice(["call", "inline", "inline"])
+    own = r.chance(1, 2)
+    body = ([("alloca", "tal", 32), ("mov", ("mem", "i64", 8, "tal", None, 1), "a1")] if own else []) + \
+        [("mov", "acc", 0), ("mov", "i", 0), ("label", lp), ("add", "x", "i", "a0"),
+         (kind, "p2", callee, "t", "x", "a2"), ("xor", "acc", "acc", "t"), ("mul", "acc", "acc", 31),
+         ("add", "i", "i", 1), ("blt", lp, "i", iters)] + \
+        ([("add", "acc", "acc", ("mem", "i64", 8, "tal", None, 1))] if own else []) + [("ret", "acc")]
+    P.funcs.append((en, "i64, p:buf, i64:a0, i64:a1, i64:a2, i64:a3, d:x0, d:x1",
+                    [f"i64:{x}" for x in ["acc", "i", "x", "t", "tal"]], body))
+    P.stats[f"stack_loop_variant_{v}_{kind}"] = 1
+    return P, [en]
